@@ -20,10 +20,10 @@ import (
 )
 
 type c15State struct {
-	tx, rx  map[string]uint64
-	has     map[string]bool // entry exists in the stats map (zero entries are listed too)
-	kick    map[string]bool
-	online  map[string]int
+	tx, rx map[string]uint64
+	has    map[string]bool // entry exists in the stats map (zero entries are listed too)
+	kick   map[string]bool
+	online map[string]int
 }
 
 func (s c15State) clone() c15State {
@@ -145,9 +145,9 @@ var c15Model = lin.Model[c15State]{
 }
 
 type c15Drv struct {
-	e   *vsched.Exec
-	s   *trafficStatsServerImpl
-	h   lin.History
+	e       *vsched.Exec
+	s       *trafficStatsServerImpl
+	h       lin.History
 	allowed map[string][2]uint64
 	cleared map[string][2]uint64
 }
@@ -297,6 +297,32 @@ func c15Scenarios() []*explore.Scenario {
 				func() { d.state(2, "u", true); d.state(2, "u", false) },
 				func() { d.state(3, "v", true); d.online(3); d.state(3, "v", false) },
 				func() { d.online(4); d.online(4) },
+			)
+			if _, body := d.get("/online"); canon(body) != "{}" {
+				e.Fail("online map not empty after all disconnects: %s", body)
+			}
+		}},
+		// Dimension: a kick racing with the online bookkeeping of the same user. One connection of u
+		// disconnects and reconnects before its reports, a second one comes and goes, POST /kick
+		// lands anywhere in between; in the reference model (c15Model) the pending kick does not
+		// depend on the online count, so whichever report of u follows the kick must be the refused
+		// one even when u had no connection left for a moment (the sequential histories of this
+		// product are enumerated by the histories unit). Added after the independently seeded change
+		// C15-7 (LogOnlineState(id,false) also deleted the user's pending kick at count zero).
+		{Name: "kick-across-reconnect", Quick: explore.Bounds{P: 2, FreeSwitch: true}, Thorough: explore.Bounds{P: 3, FreeSwitch: true}, Body: func(e *vsched.Exec) {
+			d := c15New(e)
+			run(d,
+				func() {
+					d.state(1, "u", true)
+					d.state(1, "u", false)
+					d.state(1, "u", true)
+					d.report(1, "u", 1, 16)
+					d.report(1, "u", 2, 32)
+					d.state(1, "u", false)
+				},
+				func() { d.kick(2, "u") },
+				func() { d.state(3, "u", true); d.state(3, "u", false) },
+				func() { d.online(4); d.traffic(4, true) },
 			)
 			if _, body := d.get("/online"); canon(body) != "{}" {
 				e.Fail("online map not empty after all disconnects: %s", body)
